@@ -11,6 +11,21 @@ package queue
 // the caller as call-site assertions.
 
 //@ ghost field (Store).adds int
+//@ ghost field (Store).cleans int
+//@ ghost field (Store).inits int
+//@ ghost field (Store).lastInitClean bool
+
+// Clean removes the stored messages of the client (session ended); Init (re)attaches the queue to a connection.
+//@ func (Store).Clean
+//@ params q
+//@ modifies ghost(q.$cleans)
+//@ ensures q.$cleans == old(q.$cleans) + 1
+
+//@ func (Store).Init
+//@ params q, opts
+//@ requires opts != nil
+//@ modifies ghost(q.$inits), ghost(q.$lastInitClean)
+//@ ensures q.$inits == old(q.$inits) + 1 && q.$lastInitClean == opts.CleanStart
 
 //@ func (Store).Add
 //@ params q, elem
